@@ -55,3 +55,31 @@ impl Default for MDMemoryDescriptor {
     }
 }
 }
+
+verus! {
+#[derive(Clone, Copy)]
+pub struct MDException {
+    pub exception_code: u32, pub exception_flags: u32, pub exception_record: u64, pub exception_address: u64,
+    pub number_parameters: u32, pub __align: u32, pub exception_information: [u64; 15],
+}
+impl Default for MDException {
+    fn default() -> (r: Self)
+        ensures r.exception_code == 0 && r.exception_flags == 0 && r.exception_record == 0 && r.exception_address == 0
+            && r.number_parameters == 0
+    { MDException { exception_code: 0, exception_flags: 0, exception_record: 0, exception_address: 0, number_parameters: 0, __align: 0, exception_information: [0u64; 15] } }
+}
+#[derive(Clone, Copy)]
+pub struct MDRawExceptionStream { pub thread_id: u32, pub __align: u32, pub exception_record: MDException, pub thread_context: MDLocationDescriptor }
+pub uninterp spec fn ser_exception(e: MDRawExceptionStream) -> Seq<u8>;
+impl scroll::ctx::SizeWith<scroll::Endian> for MDRawExceptionStream {
+    open spec fn spec_size() -> nat { 168 }
+    #[verifier::external_body]
+    fn size_with(ctx: &scroll::Endian) -> (r: usize) { 168 }
+}
+impl scroll::ctx::TryIntoCtx<scroll::Endian> for MDRawExceptionStream {
+    type Error = scroll::Error;
+    open spec fn ser(self) -> Seq<u8> { ser_exception(self) }
+    #[verifier::external_body]
+    fn try_into_ctx(self, dst: &mut [u8], ctx: scroll::Endian) -> (r: Result<usize, scroll::Error>) { unimplemented!() }
+}
+}
